@@ -92,6 +92,8 @@ def _tree_key():
                 ["git", "-C", REPO, "ls-files", "--others", "--exclude-standard"]):
         h.update(_run(cmd).stdout.encode())
     for f in _run(["git", "-C", REPO, "ls-files", "--others", "--exclude-standard"]).stdout.split():
+        if f.startswith(("_b", "out/")):
+            continue
         try:
             h.update(open(os.path.join(REPO, f), "rb").read())
         except OSError:
